@@ -69,6 +69,26 @@ CLAIMED["C18"] = ("proof",
     "Trusted: Coq kernel; extraction + OCaml driver; harness incl. its reference server; SHA-256 (Gallina, FIPS KATs) and big.Int.Exp = Z.pow mod (Section hypotheses); PBKDF2 always an oracle.",
     "machine-checked proof in Coq + correspondence against a reference SRP server")
 
+CLAIMED["C02"] = ("proof",
+    "A serialiser written from the TL definition alone (TL/Spec.v: ids, flags word at the `#` parameter, parameters in declaration order, vectors, Bool ids, fixed-width "
+    "128/256-bit integers, length-prefixed aligned strings) driven by the schema text parsed inside Coq (TL/TLText.v), and the theorem that the encoder model produces exactly "
+    "those bytes for every value whose constructors match their schema lines, and conversely (TL/SpecProofs.v); strings of 2^24 bytes and more are refused. Tied to the code by "
+    "marshalling values of every schema-defined constructor with the implementation and serialising their abstraction with the extracted spec: bytes must be identical, and decode back.",
+    "DESIGN.md section 8 (C02)",
+    "Trusted: as C01 plus the verbatim schema embedding. The spec covers the TL subset the two schema files use.",
+    "machine-checked proof in Coq + schema text parsed in Coq + byte-level correspondence")
+
+CLAIMED["C13"] = ("proof",
+    "A decidable matcher (TL/Match.v) between parsed schema definitions and the reflected Go descriptors - one registered type per definition, id = written id = CRC-32 of the "
+    "canonical line (Gallina CRC-32), fields in order / type / conditional bit / flags position, type names represented consistently (enum / struct pointer / interface implemented "
+    "by all constructors), nothing else registered, wrappers carry their lines' ids - with its declarative reading proved (TL/MatchProofs.v) and evaluated by the kernel on the "
+    "registry and schema text regenerated from the tree on every run (Inst/C13i.v). Values of every schema-defined constructor are additionally marshalled and compared with the "
+    "schema-defined bytes to turn a mismatch into a concrete input.",
+    "DESIGN.md section 8 (C13)",
+    "Trusted: reflection translator, schema embedding, Telethon's canonical-line rule for CRC-32. The 343 generated client methods end to end (request constructor, argument "
+    "positions, result kind) need the in-process server: covered by correspondence there, not by a theorem. Five registered types absent from the schema are a known finding.",
+    "machine-checked proof in Coq + translators (registry, schema) + correspondence")
+
 PENDING_REASON = "check not built yet in this round (machinery under construction; see DESIGN.md section 9 order of work)"
 
 
